@@ -231,6 +231,24 @@ pub fn gen_case(src: &mut Src, with_resize: bool) -> Case {
     case
 }
 
+/// primary with hundreds to thousands of scrollback lines, large sizes
+pub fn gen_large(src: &mut Src, _i: usize) -> Case {
+    let with_resize = src.below(2) == 0;
+    let mut case = gen_case(src, with_resize);
+    let extra = src.range(100, 1500);
+    let mut s = String::new();
+    for k in 0..extra {
+        s.push_str(&format!("history line {}\r\n", k));
+    }
+    // (the screen stays small: the judge walks function by function and observes the whole
+    // view at every step, so a large view times ~25k steps would only burn time)
+    case.calls.insert(0, Call::FeedStr(s));
+    if src.chance(1, 2) {
+        case.limit = *src.pick(&[None, Some(100), Some(255), Some(256), Some(1000)]);
+    }
+    case
+}
+
 pub fn gen_plain(src: &mut Src, _i: usize) -> Case {
     gen_case(src, false)
 }
@@ -282,6 +300,7 @@ pub fn run(env: &Env) -> PropRun {
     let mut parts = vec![];
     let ep = enum_pairs();
     parts.push(run_part(env, "enum-pairs", ep.len(), true, "2 sizes x 3 limits x all 9 enter/leave mode pairs x 5 primaries x 5 excursions x {no resize, one resize, resize round trip, shrink+grow}", &|i| ep.get(i).cloned(), &j));
+    parts.push(random_part(env, "large-primary", env.tier.scale(600, 30), &gen_large, &j));
     parts.push(random_part(env, "random-no-resize", env.tier.scale(50_000, 30), &gen_plain, &j));
     parts.push(random_part(env, "random-with-resize", env.tier.scale(50_000, 30), &gen_resize, &j));
     PropRun {
